@@ -231,6 +231,22 @@ def _check_substance(res, st, s, case_base):
             if _ambiguous(s, st, table):
                 res.outcomes["ambiguous-token-rejected"] += 1
                 continue  # e.g. the whole formula '(O)' read as a phase token: the statement defines nothing here
+        if isinstance(got_idx, int) and got_idx == exp_idx:
+            # the index belongs to the object: copies of it (copy, deepcopy, a pickle round trip) carry the same one
+            import copy
+            import pickle
+
+            for cname, cp in (("copy.copy", copy.copy), ("copy.deepcopy", copy.deepcopy), ("pickle round trip", lambda o: pickle.loads(pickle.dumps(o)))):
+                res.evaluations += 1
+                try:
+                    c = cp(sp)
+                    cgot = (c.phase_idx, c.name, dict(c.composition))
+                except Exception as e:
+                    cgot = "EXC %s" % type(e).__name__
+                if cgot != (got_idx, sp.name, dict(sp.composition)):
+                    res.outcomes["species-copy-WRONG"] += 1
+                    res.violation("C13|Species.from_formula|copy-differs|%s" % cname, "%s of Species.from_formula(%r, phases=%s) carries (phase_idx, name, composition) = %r, the original %r" % (
+                        cname, s, tname, cgot, (got_idx, sp.name, dict(sp.composition))), dict(case_base, what="species", table=tname), repr(cgot), repr((got_idx, sp.name, dict(sp.composition))))
         res.outcomes["phase_idx=%r" % (got_idx,) if isinstance(got_idx, int) else ("phase-WRONG" if got_idx != exp_idx else "no-phase-refused")] += 1
         if got_idx != exp_idx:
             res.violation("C13|Species.from_formula|phase_idx|%s" % tname, "Species.from_formula(%r, phases=%s).phase_idx = %r, its suffix selects %r" % (s, tname, got_idx, exp_idx),
@@ -308,6 +324,11 @@ def _rxn_cases(first):
                             continue
                         for order in ("sorted", "reversed"):
                             yield reac, prod, coeffs, order
+                    if nr + np_ == 2:
+                        # non-integral coefficients with many digits print as the number they are
+                        for longc in ((1 / 3, 1), (1, 0.1 + 0.2), (12345678.125, 2 / 3), (1 / 7, 1e-10 / 3)):
+                            if coeffs == (1, 1):
+                                yield reac, prod, longc, "sorted"
                         if nr + np_ <= 3 and 0.5 not in coeffs:
                             yield reac, prod, coeffs, "typed"  # the same integers as sympy / numpy / float / Fraction numbers
                         if nr + np_ <= 3 and coeffs.count(1) >= nr + np_ - 1:
